@@ -91,6 +91,50 @@ def user_ctors(rec):
     return cs
 
 
+def aggregate_sites(idx, qn):
+    """For a class without user-provided constructors: how its objects come into being.  Returns (ok sites, bad sites): brace
+    initialisation (missing trailing members are value-initialised) and value-initialisation leave no member indeterminate;
+    default-initialisation (`T x;`, `new T`) does."""
+    import re
+    short = qn.split('::')[-1]
+    good, bad = 0, []
+
+    def is_t(n):
+        t = re.sub(r'^(const )?(class |struct )?', '', qt(n)).replace('constexpr ', '').strip()
+        t = re.sub(r'\[[^\]]*\]$', '', t).strip()
+        return t == qn or t.split('::')[-1] == short and (t == short or qn.endswith(t))
+    roots = []
+    for f in idx.all_funcs():
+        if f.body is not None:
+            roots.append(f.body)
+        roots += list(f.inits)
+    for nid, n in idx.by_id.items():
+        if isinstance(n, dict) and n.get('kind') in ('VarDecl', 'FieldDecl') and children(n):
+            roots.append(n)
+    seen = set()
+    for r in roots:
+        for x in walk(r):
+            if id(x) in seen:
+                continue
+            seen.add(id(x))
+            k = x.get('kind')
+            if k == 'InitListExpr' and is_t(x):
+                good += 1
+            elif k in ('CXXConstructExpr', 'CXXTemporaryObjectExpr') and is_t(x):
+                real = [c for c in children(x) if c.get('kind') != 'CXXDefaultArgExpr']
+                if real:
+                    good += 1          # copy / move from an existing object
+                elif x.get('zeroing') or x.get('requiresZeroInitialization'):
+                    good += 1
+                else:
+                    bad.append(pos(x))
+            elif k == 'CXXScalarValueInitExpr' and is_t(x):
+                good += 1
+            elif k == 'CXXNewExpr' and is_t(x) and not any(c.get('kind') in ('InitListExpr', 'CXXConstructExpr') for c in children(x)):
+                bad.append(pos(x))
+    return good, bad
+
+
 def audit(idx, namespaces):
     """Yield (record qname, field node, [(ctor, how)]) for every scalar field of every class in the namespaces."""
     for qn, rec in sorted(idx.records.items()):
@@ -102,6 +146,11 @@ def audit(idx, namespaces):
         cs = user_ctors(rec)
         for f in sf:
             if not cs:
-                yield qn, f, [(None, ('default-member-init', f) if f.get('hasInClassInitializer') else None)]
+                if f.get('hasInClassInitializer'):
+                    yield qn, f, [(None, ('default-member-init', f))]
+                    continue
+                good, bad = aggregate_sites(idx, qn)
+                # an aggregate whose every object is brace- or value-initialised has no indeterminate member
+                yield qn, f, [(None, ('aggregate: %d brace/value-initialised site(s)' % good, f) if good and not bad else None)]
             else:
                 yield qn, f, [(c, ctor_initialised(idx, c, f)) for c in cs]
